@@ -61,9 +61,9 @@ class Capture(io.TextIOWrapper):
     """A text stream over bytes, like a real stdout; deliberately without
     ``getvalue``."""
 
-    def __init__(self):
-        super().__init__(KeepBytesIO(), encoding='utf-8',
-                         errors='backslashreplace', newline='\n',
+    def __init__(self, encoding='utf-8', errors='backslashreplace'):
+        super().__init__(KeepBytesIO(), encoding=encoding,
+                         errors=errors, newline='\n',
                          write_through=True)
         self._kb = self.buffer
         self.own = []      # [start, end) byte ranges written through the
